@@ -4,13 +4,21 @@ use crate::{
     store::Store,
 };
 use moka::sync::Cache as MokaCache;
-use std::sync::Arc;
+use std::{
+    collections::HashMap,
+    sync::{Arc, Mutex, Weak},
+};
 use tracing::{debug, error, instrument};
 
 #[derive(Clone)]
 pub struct Cache {
     cap: usize,
     procs: MokaCache<String, Arc<Process>>,
+    // every process instance that has been in the cache, for as long as it is alive. The LRU can
+    // drop a process whose tasks are still queued or executing (they keep the instance alive);
+    // that instance stays THE instance of the process: a second one loaded from the store
+    // next to it would let the two diverge
+    live: Arc<Mutex<HashMap<String, Weak<Process>>>>,
     store: Arc<Store>,
 }
 
@@ -28,6 +36,7 @@ impl Cache {
         Self {
             cap,
             procs: MokaCache::new(cap as u64),
+            live: Arc::new(Mutex::new(HashMap::new())),
             store: Arc::new(Store::new()),
         }
     }
@@ -71,6 +80,11 @@ impl Cache {
         match self.get_proc(pid) {
             Some(proc) => Some(proc.clone()),
             None => {
+                if let Some(proc) = self.live_proc(pid) {
+                    // dropped by the LRU while still in use: back into the cache as it is
+                    self.procs.insert(pid.to_string(), proc.clone());
+                    return Some(proc);
+                }
                 if let Some(proc) = self.store.load_proc(pid, rt).unwrap_or_else(|err| {
                     error!("cache.process store.loadproc={}", err);
                     eprintln!("cache.process store.loadproc={}", err);
@@ -91,6 +105,7 @@ impl Cache {
     pub fn remove(&self, pid: &str) -> Result<bool> {
         debug!("remove pid={pid}");
         self.procs.remove(pid);
+        self.live.lock().unwrap().remove(pid);
         self.store.remove_proc(pid)?;
         Ok(true)
     }
@@ -108,6 +123,10 @@ impl Cache {
             let cap = cap - count;
             for ref proc in self.store.load(cap, rt)? {
                 if !self.procs.contains_key(proc.id()) {
+                    if let Some(live) = self.live_proc(proc.id()) {
+                        self.procs.insert(live.id().to_string(), live);
+                        continue;
+                    }
                     self.push_proc_pri(proc, false);
                     on_load(proc);
                 }
@@ -124,11 +143,24 @@ impl Cache {
     #[cfg(test)]
     pub fn uncache(&self, pid: &str) {
         self.procs.remove(pid);
+        self.live.lock().unwrap().remove(pid);
     }
 
     #[cfg(feature = "verif")]
     pub fn verif_uncache(&self, pid: &str) {
         self.procs.remove(pid);
+    }
+
+    fn live_proc(&self, pid: &str) -> Option<Arc<Process>> {
+        let mut live = self.live.lock().unwrap();
+        match live.get(pid).map(|w| w.upgrade()) {
+            Some(Some(proc)) => Some(proc),
+            Some(None) => {
+                live.remove(pid);
+                None
+            }
+            None => None,
+        }
     }
 
     fn get_proc(&self, pid: &str) -> Option<Arc<Process>> {
@@ -145,6 +177,11 @@ impl Cache {
         #[cfg(feature = "verif")]
         crate::verif::pause("cache.push_proc");
         self.procs.insert(proc.id().to_string(), proc.clone());
+        let mut live = self.live.lock().unwrap();
+        live.insert(proc.id().to_string(), Arc::downgrade(proc));
+        if live.len() > 1024 && live.len() > self.cap * 4 {
+            live.retain(|_, w| w.strong_count() > 0);
+        }
     }
 
     pub(super) fn push_task_pri(&self, task: &Arc<Task>, save: bool) -> Result<()> {
